@@ -23,8 +23,9 @@ WORK = VERIF / ".work"
 BUILD = VERIF / ".build"
 COQFLAGS = ["-Q", "theories", "PV", "-Q", "gen", "PVGen"]
 FORBIDDEN = re.compile(
-    r"\b(Admitted|admit|Axiom|Axioms|Parameter|Parameters|Conjecture|Admit Obligations|bypass_check)\b"
-    r"|Unset Guard|Unset Positivity|Unset Universe|type-in-type|impredicative-set|native_compute"
+    r"\b(Admitted|admit|Admit\s+Obligations|bypass_check|native_compute)\b"
+    r"|(^|\.\s+)\s*(Local\s+|Global\s+|Polymorphic\s+)?(Axiom|Axioms|Parameter|Parameters|Conjecture|Conjectures)\s"
+    r"|Unset\s+Guard|Unset\s+Positivity|Unset\s+Universe|type-in-type|impredicative-set"
 )
 TRUSTED_BASE = [
     "Coq 8.16.1 kernel (coqc full .vo build, vm_compute for finite tables and witnesses; no native_compute)",
